@@ -52,7 +52,9 @@ fn kinds_ok(b: &Beh, allowed: &[String]) -> bool { b.kinds.iter().all(|k| allowe
 // ------------------------------------------------------------------------------------------- i64 -> number
 
 pub fn int_lits() -> Vec<String> {
-    ["0", "1", "2", "3", "5", "7", "10", "20", "21", "62", "63", "64", "4294967296", "3037000499", "3037000500", "4611686018427387904", "9223372036854775806", "9223372036854775807", "12", "6"]
+    ["0", "1", "2", "3", "5", "7", "10", "20", "21", "62", "63", "64", "4294967296", "3037000499", "3037000500", "4611686018427387904", "9223372036854775806", "9223372036854775807", "12", "6",
+     // integers above 2^53 that are not doubles but have small factors (exact quotients that a detour through f64 gets wrong)
+     "9007199254740993", "150094635296999121", "298023223876953125", "81", "625"]
         .iter().map(|s| s.to_string()).collect()
 }
 
